@@ -79,6 +79,16 @@ Section Alg.
     intros (H1 & H2 & H3 & H4 & H5). cbn. rewrite select_seq_all, !oselect_all by assumption. repeat split; reflexivity.
   Qed.
 
+  (* concatenating ANY two aligned sets - also sets that carry different optional fields - gives an aligned set: a field is kept
+     only when both have it, and then it has one entry per row *)
+  Lemma concat2_wf a b : wf a -> wf b -> wf (concat2 X V a b).
+  Proof.
+    unfold SamplesAlg.wf. intros (A1 & A2 & A3 & A4 & A5) (B1 & B2 & B3 & B4 & B5). cbn [concat2 a_x a_ll a_lp a_lq a_lw a_w].
+    rewrite app_length.
+    repeat split;
+      match goal with |- olen _ (oapp _ ?u ?v) _ => destruct u, v; unfold oapp, olen in *; auto; rewrite app_length; lia end.
+  Qed.
+
   (* two consecutive slices [0,k) and [k,n) partition the rows *)
   Lemma partition2 s k : wf s -> k <= length (a_x _ _ s) ->
     let n := length (a_x _ _ s) in
